@@ -275,6 +275,9 @@ func MaskCases() []Case {
 
 // Run dispatches on the engine.
 func Run(c Case, deadline time.Duration) Obs {
+	if c.Level == "service" {
+		return RunService(c, deadline)
+	}
 	if c.Engine == "v1" {
 		return RunV1(c, deadline)
 	}
@@ -327,6 +330,10 @@ func CoqCase(c Case, o Obs, v1ckf bool) string {
 	if c.Engine == "v1" {
 		ckf = v1ckf
 	}
-	return fmt.Sprintf("Case (mkTopo %s %d %d %s) [%s]", hx.Bool(c.Engine == "v2"), len(c.Sources), len(c.Dests),
+	ctor := "Case"
+	if c.Level == "service" {
+		ctor, ckf = "SCase", true // monitors only
+	}
+	return fmt.Sprintf(ctor+" (mkTopo %s %d %d %s) [%s]", hx.Bool(c.Engine == "v2"), len(c.Sources), len(c.Dests),
 		hx.Bool(ckf), strings.Join(evs, "; "))
 }
